@@ -32,15 +32,17 @@ Fixpoint owner (fuel: nat) (cl: list cls) (compiled: list nat) (v: nat) : option
 
 Definition subset (a b: list nat) : bool := forallb (fun x => memb x b) a.
 
+Definition accb (k: cls) (present: list nat) : bool := match acc_req k present with VAccept => true | _ => false end.
+
 (* one iteration of the loop: (compiled set afterwards, Some v if an instance of v is returned) *)
 Definition try_nailed (cl: list cls) (present: list nat) (compiled: list nat) (v: nat) : list nat * option nat :=
   let kv := nth v cl dummy_cls in
   match owner (S (length cl)) cl compiled v with
-  | None => (v :: compiled, if acc_req kv present then Some v else None)
+  | None => (v :: compiled, if accb kv present then Some v else None)
   | Some m =>
       let km := nth m cl dummy_cls in
       (* m's unpacker needs m's fields; v( ** kwargs) succeeds iff v requires nothing beyond them *)
-      (compiled, if acc_req km present && subset (c_req kv) (c_req km) then Some v else None)
+      (compiled, if accb km present && subset (c_req kv) (c_req km) then Some v else None)
   end.
 
 Fixpoint loop_nailed (cl: list cls) (present: list nat) (compiled: list nat) (vs: list nat) : list nat * outcome :=
@@ -57,7 +59,9 @@ Record kst := KSt { k_classes : list cls; k_compiled : list nat }.
 
 Definition kstep (sites: list site) (x: kst) (o: op) : kst * option outcome :=
   match o with
-  | Define ps tg tu rq => (KSt (k_classes x ++ [define (k_classes x) ps tg tu rq]) (k_compiled x), None)
+  | Define ps tg tu rq ke => (KSt (k_classes x ++ [define (k_classes x) ps tg tu rq ke]) (k_compiled x), None)
+  | DecodeSeq _ => (x, Some OBadSite)
+  | DecodeBad _ => (x, Some OBadSite)
   | Decode i _ present =>
       match nth_error sites i with
       | None => (x, Some OBadSite)
@@ -81,18 +85,18 @@ Definition kcase_ok (c: list site * list op * list (option outcome)) : bool :=
 
 (* ---- the defect, in the faithful model: the property's no-field clause is violated ---- *)
 Definition kf_sites : list site :=
-  [Site [0] false true false false false false 0; Site [1] false true false false false false 0].
+  [Site [0] false true false false false false 0 0; Site [1] false true false false false false 0 0].
 Definition kf_pre : list op :=
-  [Define [] [] [] [0]; Define [0] [] [] [1]; Decode 0 [] [0]].
+  [Define [] [] [] [0] false; Define [0] [] [] [1] false; Decode 0 [] [0]].
 
 Lemma nofield_inherited_unpacker_refuted :
   (* after C0's unpacker was compiled by any earlier decode ... *)
   nth_error (krun kf_sites (kf_pre ++ [Decode 1 [] [0; 1]])) 3 = Some (Some ONotFound)
   (* ... C1 (eligible, accepts) is skipped, although the property demands it: *)
-  /\ ~ nofield_spec acc_req (defs kf_pre) (Site [1] false true false false false false 0) [0; 1] ONotFound
-  /\ nofield_spec acc_req (defs kf_pre) (Site [1] false true false false false false 0) [0; 1] (OInst 1)
+  /\ ~ nofield_spec acc_req (defs kf_pre) (Site [1] false true false false false false 0 0) [0; 1] ONotFound
+  /\ nofield_spec acc_req (defs kf_pre) (Site [1] false true false false false false 0 0) [0; 1] (OInst 1)
   (* and without the earlier decode the same call answers C1: the answer depends on the history *)
-  /\ nth_error (krun kf_sites [Define [] [] [] [0]; Define [0] [] [] [1]; Decode 1 [] [0; 1]]) 2 = Some (Some (OInst 1)).
+  /\ nth_error (krun kf_sites [Define [] [] [] [0] false; Define [0] [] [] [1] false; Decode 1 [] [0; 1]]) 2 = Some (Some (OInst 1)).
 Proof.
   split; [reflexivity|]. split; [|split; [|reflexivity]].
   - intros [_ [_ [_ E]]]. vm_compute in E. discriminate.
